@@ -48,7 +48,11 @@ def multiline_doc(rng):
     for i in range(n - 1):
         edges.append("e%d" % i)
         lines.append("E\te%d\t%s+\t%s+\t5\t10$\t0\t5\t*" % (i, segs[i], segs[i + 1]))
-    pool = segs + edges
+    gaps = []
+    if n >= 2 and rng.random() < 0.5:
+        gaps.append("g1")
+        lines.append("G\tg1\t%s+\t%s-\t10\t*" % (segs[0], segs[-1]))
+    pool = segs + edges + gaps
     k = rng.randint(2, 3)
     used = set()
     ulines = []
@@ -211,6 +215,31 @@ def run_multiline(case, ctx):
             ctx.violation("order-dependent/other-records/multi-line-group",
                           "order %r: records other than the groups are written as %r" % (order, sorted(rest)))
             return
+        # back-references: every line listed by a group refers back to the line of the Gfa which
+        # carries the group (not to a line which has been replaced), and to no other
+        for l in g.lines:
+            if l.record_type not in ("S", "E", "G"):
+                continue
+            for coll, rt in (("sets", "U"), ("paths", "O")):
+                try:
+                    refs = list(getattr(l, coll))
+                except Exception:
+                    continue
+                ctx.count("multiline_backreferences_checked")
+                names = set()
+                for ref in refs:
+                    names.add(ref.name)
+                    if g.line(ref.name) is not ref:
+                        ctx.violation("order-dependent/%s/stale-backreference/multi-line-group" % rt,
+                                      "order %r: %s.%s holds a line which is not the %s of the Gfa: %r"
+                                      % (order, l.name, coll, ref.name, O.safe_str(ref)))
+                        return
+                wantn = set(nm for nm, v in want.items() if v[0] == rt and
+                            any(it.rstrip("+-") == l.name if rt == "O" else it == l.name for it in v[2]))
+                if rt == "U" and names != wantn:
+                    ctx.violation("order-dependent/U/backreferences/multi-line-group",
+                                  "order %r: %s.sets = %r, the lines define %r" % (order, l.name, sorted(names), sorted(wantn)))
+                    return
         for n in want:
             if got.get(n) != want[n]:
                 a, b = want[n], got.get(n)
